@@ -479,6 +479,27 @@ std::string project(const ak::ContentPtr& c, const JV& step) {
     try { out += ",\"json\":" + jstr(c->tojson(false, -1, "nan", "inf", "-inf", "re", "im")); }
     catch (std::exception& e) { out += ",\"json_exc\":" + jstr(firstline(e.what())); }
   }
+  if (wants(step, "json_writers", false) && readable) {
+    // the three other writers: pretty string, compact file, pretty file (each must parse to the same value)
+    try {
+      out += ",\"json_pretty\":" + jstr(c->tojson(true, -1, "nan", "inf", "-inf", "re", "im"));
+      for (int pretty = 0; pretty < 2; pretty++) {
+        FILE* f = tmpfile();
+        if (f == nullptr) throw HarnessError("tmpfile failed");
+        std::string text;
+        try {
+          c->tojson(f, pretty != 0, -1, 7, "nan", "inf", "-inf", "re", "im");     // (a 7-byte write buffer: many flushes)
+          fflush(f); rewind(f);
+          char buf[4096]; size_t n;
+          while ((n = fread(buf, 1, sizeof(buf), f)) > 0) text.append(buf, n);
+        } catch (...) { fclose(f); throw; }
+        fclose(f);
+        out += std::string(pretty ? ",\"json_file_pretty\":" : ",\"json_file\":") + jstr(text);
+      }
+    }
+    catch (HarnessError&) { throw; }
+    catch (std::exception& e) { out += ",\"json_writers_exc\":" + jstr(firstline(e.what())); }
+  }
   if (!readable) out += ",\"json_skipped\":1";
   // a scalar result (0-dimensional NumpyArray, Record, None) is converted to a Python object by the bindings before
   // anything else can be asked of it; form()/type() of a 0-dimensional NumpyArray are not reachable from Python
